@@ -18,7 +18,7 @@ const nearTol = 1.5
 // object with the paths added one path per AddPaths call.
 func runBoolean(entry int, ct c2.ClipType, fr c2.FillRule, subj, clip Paths) (sol Paths, evs []c2.VerifEvent) {
 	c2.VerifStartRecording()
-	defer func() { evs = c2.VerifStopRecording() }()
+	defer func() { evs = stopRecording() }()
 	switch entry {
 	case 1:
 		switch {
@@ -54,7 +54,7 @@ func runBoolean(entry int, ct c2.ClipType, fr c2.FillRule, subj, clip Paths) (so
 		}
 		first := Paths{}
 		c.Execute(allClipTypes[(int(ct)+1)%4], allFillRules[(int(fr)+1)%4], &first)
-		c2.VerifStopRecording()
+		stopRecording()
 		c2.VerifStartRecording() // only the events of the execution under test are attributed
 		sol = Paths{}
 		if !c.Execute(ct, fr, &sol) {
@@ -70,7 +70,7 @@ func runBoolean(entry int, ct c2.ClipType, fr c2.FillRule, subj, clip Paths) (so
 // (or passes within 2.5 units of it), "" if none.
 func attribute(q P, evs []c2.VerifEvent) string {
 	for _, ev := range evs {
-		if ev.Kind != "split-drop-path" && ev.Kind != "split-drop-tri" && ev.Kind != "join" {
+		if ev.Kind != "split-drop-path" && ev.Kind != "split-drop-tri" && ev.Kind != "split-drop-cross" && ev.Kind != "join" {
 			continue // e.g. "offset-raw": an observation, not a discard site
 		}
 		ps := Paths{ev.Pts}
@@ -80,6 +80,36 @@ func attribute(q P, evs []c2.VerifEvent) string {
 	}
 	return ""
 }
+
+// stopRecording ends hook recording and classifies the discards of the self-intersection
+// repair. A "split-drop-tri" event carries the discarded triangle (ip, splitOp, splitOp.next)
+// and the outer end points of the two crossing segments A = prevOp-splitOp and
+// B = splitOp.next-nextNextOp. Listed finding F29 is the upstream rule applied to a ring that
+// *touches* itself (a vertex lying on another edge of the ring) and is turned into a hair
+// crossing by the rounding of some other vertex: there an end point of one segment lies
+// within 1.5 units of the other segment. A crossing clear of all four end points is a ring
+// that really crosses itself - the sweep ordered its edges wrongly - and is reported under
+// the kind "split-drop-cross", which no listed finding covers.
+func stopRecording() []c2.VerifEvent {
+	evs := c2.VerifStopRecording()
+	for i := range evs {
+		e := &evs[i]
+		if e.Kind != "split-drop-tri" || len(e.Pts) != 5 {
+			continue
+		}
+		ip, so, sn, pv, nn := e.Pts[0], e.Pts[1], e.Pts[2], e.Pts[3], e.Pts[4]
+		_ = ip
+		touch := kit.DistSeg(pv, sn, nn) <= touchTol || kit.DistSeg(nn, pv, so) <= touchTol ||
+			kit.DistSeg(so, sn, nn) <= touchTol || kit.DistSeg(sn, pv, so) <= touchTol
+		if !touch {
+			e.Kind = "split-drop-cross"
+		}
+		e.Pts = e.Pts[:3:3]
+	}
+	return evs
+}
+
+const touchTol = 1.5
 
 func kfKeyForEvent(kind string) string {
 	switch kind {
